@@ -34,6 +34,12 @@ func (o *Object) Copy() Node {
 		Path:         o.Path,
 		Fields:       fields,
 		Unresolvable: o.Unresolvable,
+		// the type information is read-only and can be shared; without it the copy is
+		// not recognised as abstract and its __typename is never validated
+		PossibleTypes:     o.PossibleTypes,
+		SourceName:        o.SourceName,
+		TypeName:          o.TypeName,
+		InaccessibleTypes: o.InaccessibleTypes,
 	}
 }
 
